@@ -183,7 +183,7 @@ def l2_sig(r):
 def main(a):
     t0 = time.time()
     thorough = a.tier == "thorough"
-    l1, l2, plain = build_engines(want_plain=thorough)
+    l1, l2, plain = build_engines(want_plain=True)
     t_build = time.time() - t0
     manifest, ncorpus = corpus_manifest()
     nw = a.workers or min(16, os.cpu_count() or 8)
@@ -326,7 +326,7 @@ def main(a):
         for i, plan, res in disagreements[:3]:
             harness_errors.append("L1 and L2 disagree on random plan %d: L1 status %s, L2 status %s; stdout equal: %s; stderr equal: %s; plan: %s" %
                                   (1000000 + i, res["l1_status"], res["rc"], res["out"] == res["l1_out"], res["err"] == res["l1_err"], plan))
-        rdir = os.path.join(VERIF, "replays", PROP)
+        rdir = os.path.join(orch.OUT, "replays", PROP)
         for s, lst in sorted(l2viol.items()):
             i, plan, res = lst[0]
             # confirm in a second fresh process, then minimise
@@ -346,8 +346,8 @@ def main(a):
 
         # ---- thorough: valgrind sample for the "uninitialised memory" clause
         vg = {"runs": 0, "errors": 0}
-        if thorough and plain and shutil.which("valgrind"):
-            nvg = 300
+        if plain and shutil.which("valgrind"):
+            nvg = 300 if thorough else 32
 
             def vg_worker(k):
                 r = L2Runner(l1, l2, manifest, "v%d" % k)
@@ -423,7 +423,7 @@ def main(a):
             },
             "assumptions": ["no allocation-failure or signal-delivery faults (no property states behaviour under them)",
                             "behaviour under a failing output sink is only required to be crash-free",
-                            "MSan unusable with uninstrumented libstdc++: the uninitialised-memory clause rests on the valgrind sample (thorough tier) plus ASan/UBSan"],
+                            "MSan unusable with uninstrumented libstdc++: the uninitialised-memory clause rests on the valgrind sample (32 plans quick, 300 thorough) plus ASan/UBSan"],
         }
         orch.write_evidence(PROP, ev)
         print("C14 clisim: %d L1 runs (%d crash points, %d token replacements, %d random plans), %d L2 runs (%d/%d agree with L1), %d distinct outcome classes, %.0f s" %
